@@ -575,7 +575,7 @@ fn generate(r: &mut Rng, h: &mut Hist, gi: usize) -> Generated {
     let tok_lifetime = extern_tokens && r.chance(1, 2);
     let generic = r.chance(1, 3);
     let scale_param = !generic && r.chance(1, 3);
-    let n = 2 + r.below(5);
+    let n = 2 + r.below(4);
     let tok_ty = if tok_lifetime { "Tok<'input>".to_string() } else { "Tok".to_string() };
     h.hit(if extern_tokens { if tok_lifetime { "lexer:extern-enum<'input>" } else { "lexer:extern-enum" } } else { "lexer:built-in" });
     h.hit(if generic { "params:generic<'a,T>+where" } else if scale_param { "params:value" } else { "params:none" });
@@ -803,9 +803,27 @@ fn main() {
         let support = std::fs::read_to_string(format!("{}.support", p.display())).unwrap_or_default();
         (text, support)
     });
-    let total = if replay.is_some() { 1 } else { o.n };
+    // fixed witnesses (every run): the swallowed-alternative defect in its self-cycle and mutual-cycle
+    // forms (ill-typed default alternative on a cycle, no user code), and a consistent cycle
+    let witnesses: Vec<(&str, Option<&str>)> = vec![
+        ("@ATTR@\ngrammar;\npub A = { \"a\" A, \"x\" };\n", Some("A")),
+        ("@ATTR@\ngrammar;\npub A = { \"a\" <B>, \"x\" \"y\" };\nB = { \"b\" A \"c\", \"d\" \"e\" };\n", Some("B")),
+        ("@ATTR@\ngrammar;\npub A = { \"(\" <A> \")\", <\"n\"> };\n", None),
+    ];
+    let total = if replay.is_some() { 1 } else { o.n + witnesses.len() };
     for gi in 0..total {
         let g = match &replay {
+            None if gi < witnesses.len() => {
+                h.hit("witness");
+                Generated {
+                    text: witnesses[gi].0.to_string(),
+                    support: String::new(),
+                    planted: witnesses[gi].1.map(|s| s.to_string()),
+                    extern_tokens: false,
+                    tok_ty: "Tok".into(),
+                    generic: false,
+                }
+            }
             Some((t, s)) => Generated {
                 text: t.clone(),
                 support: s.clone(),
